@@ -45,6 +45,32 @@ Theorem C14_fate_meaning : forall sc, (forall k, is_whole (sc k) = false) -> for
      end.
 Proof. exact fate_spec. Qed.
 
+(* EVERY script, whole-request errors included: each document of a batch gets exactly the answer of the batch-level
+   closed form [bfate] (Judge/E7.v) and is sent exactly as often as it says.  [bfate] is the statement itself: a request
+   that fails as a whole answers nobody, is sent again unchanged and does not use up a retry; otherwise success on 2xx,
+   a mapping conflict fails at once, any other failure fails for good at retry count = bulk-index-max-retries, else the
+   document goes into the next request together with the other retryable failures. *)
+Theorem C14_answered_once_whole : forall cfg sc b,
+  NoDup (map d_id b) ->
+  let tr := lineage (fuel_for cfg sc) cfg sc (fresh b) in
+  tr_fuel_out tr = false
+  /\ (forall d, In d b ->
+        answers_of (d_id d) (tr_answers tr) = [fst (bfate (fuel_for cfg sc) (max_retries cfg) sc b 0 0 d)]
+        /\ (count_calls (d_id d) (tr_calls tr) + 0 = snd (bfate (fuel_for cfg sc) (max_retries cfg) sc b 0 0 d))%nat)
+  /\ (forall id, ~ In id (map d_id b) -> answers_of id (tr_answers tr) = [] /\ count_calls id (tr_calls tr) = 0%nat).
+Proof. exact batch_bfate. Qed.
+
+(* a whole-request failure: nobody is answered now, the same documents go out again, the retry count stays *)
+Theorem C14_whole_error_uses_no_retry : forall f maxr sc live n s d,
+  existsb (fun d' => is_whole (outcome_at sc (d_id d') s)) live = true ->
+  bfate (S f) maxr sc live n s d = bfate f maxr sc live n (S s) d.
+Proof. intros f maxr sc live n s d H. rewrite bfate_S, H. reflexivity. Qed.
+
+(* without whole-request errors the batch-level closed form is the per-document [fate] of C14_fate_meaning *)
+Theorem C14_bfate_is_fate : forall sc, no_whole sc = true -> forall f rem live s d,
+  (rem < f)%nat -> bfate f (s + rem) sc live s s d = fate rem s (outcome_at sc (d_id d)).
+Proof. exact bfate_is_fate. Qed.
+
 Theorem C14_late_harmless : forall cfg sc sc' t,
   (forall id k, outcome_at sc id k = outcome_at sc' id k) -> handle cfg sc t = handle cfg sc' t.
 Proof. exact handle_ignores_late. Qed.
@@ -199,6 +225,18 @@ Example C14_pool_example :
   /\ mrun cfg [] (m_init cfg) [AOp (OpDoc (d 0)); AOp (OpDoc (d 1)); AAcquire 0; AAcquire 0] = None.
 Proof. vm_compute. split; [eexists; repeat split|reflexivity]. Qed.
 
+(* a whole-request error before a retryable failure, max retries 1: the document is sent three times (whole, retryable
+   with retry count 0, retryable with retry count 1) and then fails with the error of the third send; a budget that
+   counted the whole-request error would have answered after the second send *)
+Example C14_whole_example :
+  let cfg := {| batch_size := 1; max_retries := 1; workers := 1 |} in
+  let d := {| d_id := 0; d_idx := 0; d_hasid := 0; d_body := 0 |} in
+  let sc := [(0, [(OWhole, false); (ORetry, false); (ORetry, false)])] in
+  let r := es_run cfg sc [OpDoc d] true in
+  e_answers r = [(0, AIndexErr 2 1)] /\ e_calls r = [[d]; [d]; [d]]
+  /\ bfate (fuel_for cfg sc) 1 sc [d] 0 0 d = (AIndexErr 2 1, 3%nat).
+Proof. vm_compute. repeat split; reflexivity. Qed.
+
 (* a complete schedule: two batches of one document with one worker; the first is retried once *)
 Example C14_schedule_example :
   let cfg := {| batch_size := 1; max_retries := 1; workers := 1 |} in
@@ -215,6 +253,9 @@ Print Assumptions C14_answered_once.
 Print Assumptions C14_schedule_independent.
 Print Assumptions C14_answered_once_from.
 Print Assumptions C14_fate_meaning.
+Print Assumptions C14_answered_once_whole.
+Print Assumptions C14_whole_error_uses_no_retry.
+Print Assumptions C14_bfate_is_fate.
 Print Assumptions C14_late_harmless.
 Print Assumptions C14_batch_shape.
 Print Assumptions C14_pool.
